@@ -3,6 +3,7 @@
 package slip
 
 import (
+	"encoding/json"
 	"fmt"
 	"math"
 	"math/big"
@@ -106,6 +107,20 @@ func SimpleObject(val any) (obj Object) {
 		obj = SingleFloat(tv)
 	case float64:
 		obj = DoubleFloat(tv)
+	case json.Number:
+		// Numbers too large for an int64 or float64, the reverse of
+		// what Bignum and LongFloat Simplify() to.
+		if bi, ok := new(big.Int).SetString(string(tv), 10); ok {
+			if bi.IsInt64() {
+				obj = Fixnum(bi.Int64())
+			} else {
+				obj = (*Bignum)(bi)
+			}
+		} else if bf, _, err := big.ParseFloat(string(tv), 10, 0, big.ToNearestEven); err == nil {
+			obj = (*LongFloat)(bf)
+		} else {
+			obj = String(tv)
+		}
 
 	case string:
 		obj = String(tv)
